@@ -275,7 +275,7 @@ class H2Protocol:
                     )
                 else:
                     await self._create_stream(event)
-                    await self.send(Updated(idle=False))
+                    await self.send(Updated(idle=self.idle))
 
                 if self.keep_alive_requests > self.config.keep_alive_max_requests:
                     self.connection.close_connection()
@@ -353,11 +353,18 @@ class H2Protocol:
     async def _create_stream(
         self, request: Union[h2.events.RequestReceived, _SyntheticRequest]
     ) -> None:
+        raw_path: Optional[bytes] = None
         for name, value in request.headers:
             if name == b":method":
                 method = value.decode("ascii").upper()
             elif name == b":path":
                 raw_path = value
+
+        if raw_path is None:
+            # A CONNECT request without a :path asks for a tunnel,
+            # which is not supported. Only this stream is answered.
+            await self._send_error_response(request.stream_id, 400)
+            return
 
         if method == "CONNECT":
             self.streams[request.stream_id] = WSStream(
@@ -404,6 +411,19 @@ class H2Protocol:
         )
         self.keep_alive_requests += 1
         await self.context.mark_request()
+
+    async def _send_error_response(self, stream_id: int, status_code: int) -> None:
+        # Respond to a request that cannot be given to a stream
+        try:
+            self.connection.send_headers(
+                stream_id,
+                [(b":status", b"%d" % status_code), (b"content-length", b"0")]
+                + self.config.response_headers("h2"),
+                end_stream=True,
+            )
+        except h2.exceptions.ProtocolError:
+            return  # The stream or connection has already closed
+        await self._flush()
 
     async def _create_server_push(
         self, stream_id: int, path: bytes, headers: List[Tuple[bytes, bytes]]
